@@ -231,6 +231,32 @@ pub fn run(o: &Opts) -> i32 {
     let _ = obs(&root, &mut classes, base);
     let mut trail = vec![];
     dfs(&root, depth, &mut trail, &mut cx, &classes);
+    // second configuration: every active member has a by-reference Update proposal outstanding that all members cached, so
+    // every commit of the race carries the other racers' Updates (the loser must still be able to follow the winner with the
+    // key material of its own pending Update); same model, one level less deep
+    {
+        let mut groups = setup(&mk, members, &log);
+        let mut props = vec![];
+        for m in 0..active.min(groups.len()) {
+            if let Ok(p) = groups[m].propose_update(vec![]) {
+                props.push((m, p));
+            }
+        }
+        for (from, p) in &props {
+            for (i, g) in groups.iter_mut().enumerate() {
+                if i != *from {
+                    let _ = g.process_incoming_message(p.clone());
+                }
+            }
+        }
+        let base2 = groups[0].current_epoch();
+        let root2 = Node { groups, commits: vec![] };
+        cx.base_epoch = base2;
+        let mut classes2 = vec![];
+        let _ = obs(&root2, &mut classes2, base2);
+        let mut trail2 = vec![];
+        dfs(&root2, depth.saturating_sub(1).max(3), &mut trail2, &mut cx, &classes2);
+    }
     let rows = cx.qa.finish();
     println!("rows {rows}");
     println!("cases {}", cx.ops);
